@@ -17,7 +17,7 @@ import numpy as _np
 
 _INV4PI = 1.0 / (4.0 * _np.pi)
 _CACHE_LIMIT = 3_000_000  # ntargets * nsources up to which the 4 kernel matrices are kept
-_CHUNK = 1_500_000
+_CHUNK = 600_000
 
 
 class _Fmm(object):
@@ -63,31 +63,85 @@ def clear_values(tree):
     return None
 
 
-def _kernel_block(fmm, targets, sources):
-    """Return (4, nt, ns): G and the three components of grad_x G."""
-    diff = targets[:, None, :] - sources[None, :, :]
-    r = _np.sqrt(_np.einsum("ijk,ijk->ij", diff, diff))
+class _Work(object):
+    """Reusable work arrays for one chunk (fresh large allocations are slow in some sandboxes)."""
+
+    def __init__(self, rows, ns, kdtype):
+        self.key = (rows, ns, _np.dtype(kdtype))
+        self.d = [_np.empty((rows, ns)) for _ in range(3)]
+        self.r = _np.empty((rows, ns))
+        self.inv = _np.empty((rows, ns))
+        self.tmp = _np.empty((rows, ns))
+        self.g = _np.empty((rows, ns), dtype=kdtype)
+        self.rad = _np.empty((rows, ns), dtype=kdtype)
+        self.out = _np.empty((4, rows, ns), dtype=kdtype)
+
+
+_WORK = [None]
+
+
+def _work(rows, ns, kdtype):
+    w = _WORK[0]
+    if w is None or w.key != (rows, ns, _np.dtype(kdtype)):
+        _WORK[0] = None
+        w = _Work(rows, ns, kdtype)
+        _WORK[0] = w
+    return w
+
+
+def _kernel_dtype(fmm):
+    return _np.complex128 if fmm.mode == "helmholtz" else _np.float64
+
+
+def _kernel_block(fmm, targets, sources, rows=None):
+    """Return (4, nt, ns): G and the three components of grad_x G (a view into the work arrays)."""
+    nt, ns = targets.shape[0], sources.shape[0]
+    W = _work(max(nt, rows or nt), ns, _kernel_dtype(fmm))
+    d = [a[:nt] for a in W.d]
+    r, inv, tmp, g, rad, out = W.r[:nt], W.inv[:nt], W.tmp[:nt], W.g[:nt], W.rad[:nt], W.out[:, :nt]
+    for i in range(3):
+        _np.subtract(targets[:, None, i], sources[None, :, i], out=d[i])
+    _np.multiply(d[0], d[0], out=r)
+    _np.multiply(d[1], d[1], out=tmp)
+    r += tmp
+    _np.multiply(d[2], d[2], out=tmp)
+    r += tmp
+    _np.sqrt(r, out=r)
     zero = r == 0
-    rs = _np.where(zero, 1.0, r)
+    any_zero = bool(zero.any())
+    if any_zero:
+        r[zero] = 1.0
+    _np.divide(1.0, r, out=inv)
     if fmm.mode == "laplace":
-        g = _INV4PI / rs
-        radial = -g / rs  # dG/dr
+        _np.multiply(inv, _INV4PI, out=g)  # G = 1/(4 pi r)
+        _np.multiply(g, inv, out=rad)
+        _np.negative(rad, out=rad)  # dG/dr = -G/r
     elif fmm.mode == "helmholtz":
         k = complex(fmm.wavenumber)
-        g = _INV4PI * _np.exp(1j * k * rs) / rs
-        radial = g * (1j * k - 1.0 / rs)
+        _np.multiply(r, 1j * k, out=g)
+        _np.exp(g, out=g)
+        g *= inv
+        g *= _INV4PI  # G = exp(i k r)/(4 pi r)
+        _np.subtract(1j * k, inv, out=rad)
+        rad *= g  # dG/dr = G (i k - 1/r)
     elif fmm.mode == "modified_helmholtz":
         w = float(_np.real(fmm.wavenumber))
-        g = _INV4PI * _np.exp(-w * rs) / rs
-        radial = g * (-w - 1.0 / rs)
+        _np.multiply(r, -w, out=g)
+        _np.exp(g, out=g)
+        g *= inv
+        g *= _INV4PI  # G = exp(-w r)/(4 pi r)
+        _np.add(inv, w, out=rad)
+        rad *= g
+        _np.negative(rad, out=rad)  # dG/dr = -G (w + 1/r)
     else:
         raise ValueError(fmm.mode)
-    g = _np.where(zero, 0, g)
-    radial = _np.where(zero, 0, radial / rs)
-    out = _np.empty((4,) + r.shape, dtype=g.dtype)
+    rad *= inv  # (dG/dr)/r
+    if any_zero:
+        g[zero] = 0
+        rad[zero] = 0
     out[0] = g
     for i in range(3):
-        out[1 + i] = radial * diff[:, :, i]
+        _np.multiply(rad, d[i], out=out[1 + i])  # grad_x G = (dG/dr) (x - y)/r
     return out
 
 
@@ -96,12 +150,12 @@ def evaluate(tree, fmm):
     q = tree.charges
     if nt * ns <= _CACHE_LIMIT:
         if tree.matrices is None:
-            tree.matrices = _kernel_block(fmm, tree.targets, tree.sources)
-        return _np.ascontiguousarray((tree.matrices @ q).T)
-    dtype = _np.result_type(q.dtype, _np.complex128 if fmm.mode == "helmholtz" else _np.float64)
+            tree.matrices = _kernel_block(fmm, tree.targets, tree.sources).copy()
+        return _np.ascontiguousarray(_np.einsum("ijk,k->ji", tree.matrices, q))
+    dtype = _np.result_type(q.dtype, _kernel_dtype(fmm))
     res = _np.zeros((nt, 4), dtype=dtype)
     step = max(1, _CHUNK // max(ns, 1))
     for start in range(0, nt, step):
-        blk = _kernel_block(fmm, tree.targets[start : start + step], tree.sources)
-        res[start : start + step, :] = (blk @ q).T
+        blk = _kernel_block(fmm, tree.targets[start : start + step], tree.sources, rows=step)
+        res[start : start + step, :] = _np.einsum("ijk,k->ji", blk, q)
     return res
